@@ -1,4 +1,5 @@
 import CookModel.Lemmas.Collector
+import CookModel.Lemmas.Diag
 /-
   C07  Diagnostics are sound, complete and placed on the offending construct.
 
@@ -34,5 +35,107 @@ theorem C07_parse_error_suppresses (env : Env) (input : Str) (evs : List (Ev α)
 theorem C07_analysis_error_keeps_output (env : Env) (input : Str) (evs : List (Ev α)) (s : Col α)
     (h : ∀ d, Ev.error d ∉ evs) : (parseEventsLoop env input evs s).output.isSome :=
   parseEventsLoop_no_error_output env input evs s h
+
+/-! ### Completeness in isolation, value level (src/parser/quantity.rs) -/
+
+/-- **Zero denominator.**  For every two integer tokens `a`, `b` where `b` spells zero (and `a` fits
+    `u32`), the fraction reader returns the error `division-by-zero` (severity error, stage parse)
+    whose only label is exactly the span of the fraction, from the start of `a` to the end of `b`.
+    Consequently `numeric_value` and `parse_value`'s number reader return that error for every token
+    run `pre ++ mid ++ post` where `pre`/`post` are blanks and comments and the non-blank tokens of
+    `mid` are `a / b` (`1/0`, `1 / 0`, ` 1/0 `…), provided the run is not split as a range. -/
+theorem C07_zero_denominator (a s b : Tok) (ha : a.kind = .int) (hs : s.kind = .slash) (hb : b.kind = .int)
+    (hau : digitsToNat a.text ≤ u32Max) (hb0 : digitsToNat b.text = 0)
+    (pre mid post : List Tok) (hpre : ∀ t ∈ pre, Blank t) (hpost : ∀ t ∈ post, Blank t)
+    (hfirst : mid.head? = some a) (hlast : mid.getLast? = some b)
+    (hmid : mid.filter notWsComment = [a, s, b]) (rangeExt : Bool)
+    (hr : rangeExt = false ∨ ∀ t ∈ pre ++ mid ++ post, t.kind ≠ .minus) :
+    fracNum (α := α) a b = .error ⟨.error, .parse, "division-by-zero", [⟨a.start, b.stop⟩]⟩ ∧
+    numericValue (α := α) (pre ++ mid ++ post) =
+      some (.error ⟨.error, .parse, "division-by-zero", [⟨a.start, b.stop⟩]⟩) ∧
+    numOrRange (α := α) rangeExt (pre ++ mid ++ post) =
+      some (.error ⟨.error, .parse, "division-by-zero", [⟨a.start, b.stop⟩]⟩) := by
+  have hna : ¬ Blank a := by simp [Blank, isWsComment, ha]
+  have hnb : ¬ Blank b := by simp [Blank, isWsComment, hb]
+  have htrim := diag_trim_pad pre post mid a b hpre hpost hfirst hlast hna hnb
+  have hz := diag_fracNum_zero (α := α) a b hau hb0
+  have hnv : numericValue (α := α) (pre ++ mid ++ post) = some (.error (divZeroDiag a b)) := by
+    rw [diag_numericValue_frac _ a s b (by rw [htrim]; exact hmid) ha hs hb, hz]; rfl
+  exact ⟨hz, hnv, by rw [diag_numOrRange_eq _ _ hr]; exact hnv⟩
+
+/-- the same for the mixed form `i a/b` (`1 1/0`): the label is the span of the fraction part -/
+theorem C07_zero_denominator_mixed (i a s b : Tok) (hi : i.kind = .int) (ha : a.kind = .int) (hs : s.kind = .slash)
+    (hb : b.kind = .int) (hiu : digitsToNat i.text ≤ u32Max)
+    (hau : digitsToNat a.text ≤ u32Max) (hb0 : digitsToNat b.text = 0)
+    (pre mid post : List Tok) (hpre : ∀ t ∈ pre, Blank t) (hpost : ∀ t ∈ post, Blank t)
+    (hfirst : mid.head? = some i) (hlast : mid.getLast? = some b)
+    (hmid : mid.filter notWsComment = [i, a, s, b]) (rangeExt : Bool)
+    (hr : rangeExt = false ∨ ∀ t ∈ pre ++ mid ++ post, t.kind ≠ .minus) :
+    mixedNum (α := α) i a b = .error ⟨.error, .parse, "division-by-zero", [⟨a.start, b.stop⟩]⟩ ∧
+    numOrRange (α := α) rangeExt (pre ++ mid ++ post) =
+      some (.error ⟨.error, .parse, "division-by-zero", [⟨a.start, b.stop⟩]⟩) := by
+  have hni : ¬ Blank i := by simp [Blank, isWsComment, hi]
+  have hnb : ¬ Blank b := by simp [Blank, isWsComment, hb]
+  have htrim := diag_trim_pad pre post mid i b hpre hpost hfirst hlast hni hnb
+  have hz := diag_mixedNum_zero (α := α) i a b hiu hau hb0
+  refine ⟨hz, ?_⟩
+  rw [diag_numOrRange_eq _ _ hr, diag_numericValue_mixed _ i a s b (by rw [htrim]; exact hmid) hi ha hs hb, hz]
+  rfl
+
+/-- **Integer overflow.**  A numerator, denominator or whole part above `u32::MAX` gives the error
+    `int-parse` (error, parse stage) labelled with exactly that token; the value readers return it
+    for the padded spellings of the fraction and of the mixed number. -/
+theorem C07_int_overflow (i a s b : Tok) (hi : i.kind = .int) (ha : a.kind = .int) (hs : s.kind = .slash)
+    (hb : b.kind = .int) :
+    (u32Max < digitsToNat a.text →
+      fracNum (α := α) a b = .error ⟨.error, .parse, "int-parse", [⟨a.start, a.stop⟩]⟩) ∧
+    (digitsToNat a.text ≤ u32Max → u32Max < digitsToNat b.text →
+      fracNum (α := α) a b = .error ⟨.error, .parse, "int-parse", [⟨b.start, b.stop⟩]⟩) ∧
+    (u32Max < digitsToNat i.text →
+      mixedNum (α := α) i a b = .error ⟨.error, .parse, "int-parse", [⟨i.start, i.stop⟩]⟩) ∧
+    (∀ (pre mid post : List Tok) (d : Diag) (rangeExt : Bool), (∀ t ∈ pre, Blank t) → (∀ t ∈ post, Blank t) →
+      mid.head? = some a → mid.getLast? = some b → mid.filter notWsComment = [a, s, b] →
+      (rangeExt = false ∨ ∀ t ∈ pre ++ mid ++ post, t.kind ≠ .minus) →
+      fracNum (α := α) a b = .error d →
+      numOrRange (α := α) rangeExt (pre ++ mid ++ post) = some (.error d)) ∧
+    (∀ (pre mid post : List Tok) (d : Diag) (rangeExt : Bool), (∀ t ∈ pre, Blank t) → (∀ t ∈ post, Blank t) →
+      mid.head? = some i → mid.getLast? = some b → mid.filter notWsComment = [i, a, s, b] →
+      (rangeExt = false ∨ ∀ t ∈ pre ++ mid ++ post, t.kind ≠ .minus) →
+      mixedNum (α := α) i a b = .error d →
+      numOrRange (α := α) rangeExt (pre ++ mid ++ post) = some (.error d)) := by
+  have hni : ¬ Blank i := by simp [Blank, isWsComment, hi]
+  have hna : ¬ Blank a := by simp [Blank, isWsComment, ha]
+  have hnb : ¬ Blank b := by simp [Blank, isWsComment, hb]
+  refine ⟨fun h => diag_fracNum_overflow_num a b h, fun h1 h2 => diag_fracNum_overflow_den a b h1 h2,
+    fun h => diag_mixedNum_overflow_whole i a b h, ?_, ?_⟩
+  · intro pre mid post d rangeExt hpre hpost hfirst hlast hmid hr hd
+    have htrim := diag_trim_pad pre post mid a b hpre hpost hfirst hlast hna hnb
+    rw [diag_numOrRange_eq _ _ hr, diag_numericValue_frac _ a s b (by rw [htrim]; exact hmid) ha hs hb, hd]
+    rfl
+  · intro pre mid post d rangeExt hpre hpost hfirst hlast hmid hr hd
+    have htrim := diag_trim_pad pre post mid i b hpre hpost hfirst hlast hni hnb
+    rw [diag_numOrRange_eq _ _ hr, diag_numericValue_mixed _ i a s b (by rw [htrim]; exact hmid) hi ha hs hb, hd]
+    rfl
+
+/-- the reader's error becomes an error EVENT of the parser: `parse_value` pushes exactly it -/
+theorem C07_value_error_pushed (tokens : List Tok) (s : BP α) (d : Diag)
+    (h : numOrRange (α := α) (s.ext.has Gen.EXT_RANGE_VALUES) tokens = some (.error d)) :
+    (parseValue (α := α) tokens s).2.evs = s.evs.push (.error d) := by
+  rw [diag_parseValue_error tokens s d h]
+
+/-! non-vacuity: `1/0`, ` 1 / 0 ` and `2 1/0` with concrete tokens -/
+example : numOrRange (α := Rat) true [⟨.int, ['1'], 0⟩, ⟨.slash, ['/'], 1⟩, ⟨.int, ['0'], 2⟩] =
+    some (.error ⟨.error, .parse, "division-by-zero", [⟨0, 3⟩]⟩) :=
+  (C07_zero_denominator ⟨.int, ['1'], 0⟩ ⟨.slash, ['/'], 1⟩ ⟨.int, ['0'], 2⟩ rfl rfl rfl (by decide) (by decide)
+    [] [⟨.int, ['1'], 0⟩, ⟨.slash, ['/'], 1⟩, ⟨.int, ['0'], 2⟩] [] (by simp) (by simp) rfl rfl rfl true
+    (Or.inr (by decide))).2.2
+example : numOrRange (α := Rat) false
+    [⟨.ws, [' '], 0⟩, ⟨.int, ['2'], 1⟩, ⟨.ws, [' '], 2⟩, ⟨.int, ['1'], 3⟩, ⟨.slash, ['/'], 4⟩, ⟨.int, ['0'], 5⟩] =
+    some (.error ⟨.error, .parse, "division-by-zero", [⟨3, 6⟩]⟩) :=
+  (C07_zero_denominator_mixed ⟨.int, ['2'], 1⟩ ⟨.int, ['1'], 3⟩ ⟨.slash, ['/'], 4⟩ ⟨.int, ['0'], 5⟩ rfl rfl rfl rfl
+    (by decide) (by decide) (by decide) [⟨.ws, [' '], 0⟩]
+    [⟨.int, ['2'], 1⟩, ⟨.ws, [' '], 2⟩, ⟨.int, ['1'], 3⟩, ⟨.slash, ['/'], 4⟩, ⟨.int, ['0'], 5⟩] []
+    (by simp [Blank, isWsComment]) (by simp) rfl rfl rfl false (Or.inl rfl)).2
+example : u32Max < digitsToNat ['4', '2', '9', '4', '9', '6', '7', '2', '9', '6'] := by decide
 
 end Cook
